@@ -24,7 +24,7 @@ STUBS = os.path.join(VERIF, "stubs")
 MEM_KB = 12 * 1024 * 1024
 
 DEFAULT_CHECKS = ["--no-standard-checks", "--bounds-check", "--pointer-check", "--div-by-zero-check",
-                  "--pointer-primitive-check"]
+                  "--pointer-primitive-check", "--slice-formula"]
 
 
 class Undecided(Exception):
@@ -95,8 +95,7 @@ def run_target(kb, t, obj, workdir, trace=True):
         cb.append("--trace")
     if t.unwind is not None:
         cb += ["--unwind", str(t.unwind), "--unwinding-assertions"]
-    if t.objbits:
-        cb += ["--object-bits", str(t.objbits)]
+    cb += ["--object-bits", str(t.objbits or 12)]
     if t.solver:
         cb.append("--" + t.solver)
     cb.append(gb2)
